@@ -3,7 +3,8 @@
   current policy.
 
   Model: Model/SoftReset.lean — the C01/C02 world (Model/World.lean) extended with a policy
-  interpreter (community-set + neighbor-set conditions, set-med / set-local-pref / community-add,
+  interpreter (community-set / neighbor-set / prefix-set / as-path-set (ANY over the current
+  members) and as-path-length conditions, set-med / set-local-pref / community-add,
   accept / reject / fall through; import policy in propagateUpdate, export policy with the
   re-evaluation of `old` in (*BgpServer).filterpath), peer.sentPaths, softResetIn, softResetOut,
   handleRouteRefresh, sReset and the "all" forms.  Tied to the code by
@@ -48,9 +49,10 @@ theorem delta_correct_policy (g : Global) (e : Pol) (t : PeerCfg) (hrs : t.isRSC
     (oldL newL : List Cand)
     (wfO : ∀ o, oldL.head? = some o → FromPeerWF g t o)
     (wfEq : ∀ b o, newL.head? = some b → oldL.head? = some o →
-      b.src.equal o.src = true → b.src = o.src) :
+      b.src.equal o.src = true → b.src = o.src)
+    (wfP : ∀ b o, newL.head? = some b → oldL.head? = some o → b.pfx = o.pfx) :
     heldApplyP g t (wantOfP g e t oldL) (deltaForP g e t oldL newL) = wantOfP g e t newL :=
-  delta_correct_P g e t hrs oldL newL wfO wfEq
+  delta_correct_P g e t hrs oldL newL wfO wfEq wfP
 
 /-- **weak_invariant_step.** Whatever export policy is in force when a destination changes —
     in particular one that differs from the policy under which the peer was last told — the
@@ -233,7 +235,7 @@ def r1 : Cand :=
 def r2 : Cand :=
   { (default : Cand) with src := src2.srcInfo g0, marker := 2, origin := some 0, segs := [⟨2, [65003, 300]⟩], ts := 2 }
 /-- "reject routes carrying 65533:1 toward peer 0", "add 65532:1 to everything else" -/
-def eNew : Pol := { stmts := [{ comm := tag, anyPeer := false, peers := [0], route := 2 },
+def eNew : Pol := { stmts := [{ commSet := [tag], anyPeer := false, peers := [0], route := 2 },
                              { addComm := some 4294705153 }] }
 def eOld : Pol := {}
 
@@ -250,9 +252,22 @@ example : WeakInv g0 tE [r1, r2] (some ⟨1, none, none, [tag]⟩) :=
 example : softOutFor g0 eNew tE [r2] true =
     [⟨{ r2 with med := none, segs := [⟨2, [65000, 65003, 300]⟩], comms := [4294705153] }, false⟩] := by
   decide
+/-- defined-set conditions: a prefix-set holding two mask-length ranges for the SAME prefix
+    (10.0.0.0/8 16..16 and 24..24) matches 10.3.0.0/16 through the first and 10.1.0.0/24 through
+    the second entry; dropping the older entry changes the verdict -/
+example : (⟨167772160, 8, 16, 16⟩ : PfxEnt).matchesPfx 2 = true ∧
+    (⟨167772160, 8, 24, 24⟩ : PfxEnt).matchesPfx 2 = false ∧
+    (⟨167772160, 8, 24, 24⟩ : PfxEnt).matchesPfx 0 = true := by decide
+def rejPfx (es : List PfxEnt) : Pol := { stmts := [{ pfxSet := some es, route := 2 }] }
+example : applyPol (rejPfx [⟨167772160, 8, 16, 16⟩, ⟨167772160, 8, 24, 24⟩]) 1 { r1 with pfx := 2 } = none := by
+  decide
+example : (applyPol (rejPfx [⟨167772160, 8, 24, 24⟩]) 1 { r1 with pfx := 2 }).isSome = true := by decide
+/-- as-path-set members: `_300_` matches r2's path, `^65002_` its left-most AS does not -/
+example : (⟨0, 300⟩ : AspEnt).matchesPath (asSeqList r2.segs) = true ∧
+    (⟨1, 65002⟩ : AspEnt).matchesPath (asSeqList r2.segs) = false := by decide
 /-- import side: r1 was accepted under the old import policy, the new one rejects it -/
 def fOld : Cand → Option Cand := fun c => applyPol eOld 1 c
-def fNew : Cand → Option Cand := fun c => applyPol { stmts := [{ comm := tag, route := 2 }] } 1 c
+def fNew : Cand → Option Cand := fun c => applyPol { stmts := [{ commSet := [tag], route := 2 }] } 1 c
 example : BestPath.run ⟨true, false, false⟩ (hist [(.ann r1, fOld), (.ann r2, fOld)] ++ softOps fNew [r2, r1]) = [r2] := by
   decide
 example : BestPath.run ⟨true, false, false⟩ ([Ev.ann r1, Ev.ann r2].map (opOf fNew)) = [r2] := by decide
@@ -262,10 +277,14 @@ example : [r2, r1].Perm (adjOf ([(Ev.ann r1, fOld), (Ev.ann r2, fOld)].map (·.1
 example : KeyPres fNew := applyPol_keyPres _ (fun _ => 1)
 example : PairWF ⟨true, false, false⟩ r1 r2 := ⟨by decide, by decide, by decide, by decide⟩
 example : ListsWF g0 tE [[r1, r2], [r2]] := by
-  refine ⟨?_, ?_⟩
+  refine ⟨?_, ?_, ?_⟩
   · intro l hl o ho
     simp only [List.mem_cons, List.not_mem_nil, or_false] at hl
     rcases hl with rfl | rfl <;> (simp at ho; subst ho; intro h; revert h; decide)
+  · intro l hl l' hl' b o hb ho
+    simp only [List.mem_cons, List.not_mem_nil, or_false] at hl hl'
+    rcases hl with rfl | rfl <;> rcases hl' with rfl | rfl <;>
+      (simp at hb ho; subst hb; subst ho; decide)
   · intro l hl l' hl' b o hb ho
     simp only [List.mem_cons, List.not_mem_nil, or_false] at hl hl'
     rcases hl with rfl | rfl <;> rcases hl' with rfl | rfl <;>
